@@ -1087,13 +1087,13 @@ package larking
 // (frame assumed at call sites; the body is checked for: the trailer prefix is
 // stripped from a key only after the key itself was found not to be a header that
 // was already sent - a trailer may share its name with a sent header, C14)
-//@ func (*webWriter).writeTrailer serves C14 trusted partial ghost
+//@ func (*webWriter).writeTrailer serves C14 trusted partial ghost nil pre
 //@   requires w != nil
 //@   modifies F$webWriter.wroteHeader, F$webWriter.seenHeaders, G$wr.
 //@   assert atcall `strings.TrimPrefix(` [prefix-stripped-only-after-the-sent-header-check C14] w.seenHeaders == nil || !(maphas(w.seenHeaders, key) && mapval(w.seenHeaders, key))
 //@ func (*webWriter).Flush trusted pure
 // (newWebWriter wraps the response in a base64 encoder, an io.WriteCloser, exactly when typ is grpc-web-text.)
-//@ func (*webWriter).flushWithTrailer serves C06 partial count post nil
+//@ func (*webWriter).flushWithTrailer serves C06 partial count post nil pre
 //@   requires w != nil && (w.typ == "application/grpc-web-text" ==> impl(w.resp, "io.Closer"))
 //@   count closes `c.Close(`
 //@   witness verifWitnessWebText
@@ -1229,7 +1229,7 @@ package larking
 // method is left for a later registration to trip over; a method registered again is served
 // by its live backend on every binding): at this node no verb and no "*" binding of the
 // name is left, and every literal child and every variable subtree was searched.
-//@ func (*path).delRule serves C11 C12 partial ghost count post inv.init inv.keep
+//@ func (*path).delRule serves C11 C12 partial ghost count post inv.init inv.keep index make
 //@   returns (ok)
 //@   requires p != nil
 //@   count subcalls `v.next.delRule(`
@@ -1415,7 +1415,7 @@ package larking
 // node of the selector trie applies to the name that ends at that node; only
 // wildcard selectors ("pkg.*", "*") reach the names below it. getRules collects
 // a node's own rules only when the looked-up name ends there.
-//@ func (*ruleSelector).getRules serves C19 partial ghost
+//@ func (*ruleSelector).getRules serves C19 partial ghost nil
 //@   requires r != nil
 //@   assert atcall `append(rules, r.rules...)` [exact-selectors-apply-only-to-their-own-name C19] len(name) == 0
 //@   assert atcall `append(rules, r.wild...)` [wildcards-cover-only-deeper-names C19] len(name) > 0
@@ -1445,7 +1445,7 @@ package larking
 // version carried it (browsers speak HTTP/2 to a TLS server), never the plain gRPC
 // entry, which refuses its content type (C05, C06: gRPC-web is one of the transports).
 //@ det HeaderGet "(http.Header).Get" string
-//@ func (*Mux).ServeHTTP serves C06 C05 partial ghost
+//@ func (*Mux).ServeHTTP serves C06 C05 partial ghost nil
 //@   requires m != nil && r != nil && r.URL != nil
 //@   ghost at `if !strings.HasPrefix(r.URL.Path, "/") {` p0 = r.URL.Path
 //@   assert atcall `m.serveHTTP(` [the-path-that-is-routed-is-the-request-path-less-at-most-one-final-slash C01]
@@ -1480,7 +1480,7 @@ package larking
 //@   ensures [clean-end-passes-the-trailer-on C10] at "return nil" trailers == 1
 // The unary proxy body: the backend is invoked for the proxied method's own name with the
 // caller's metadata, request and reply are the ones handed in and out, an error is passed on.
-//@ func createConnHandler$3 serves C10 partial ghost count post
+//@ func createConnHandler$3 serves C10 partial ghost count post nil
 //@   returns (res, rerr)
 //@   count outctx `metadata.NewOutgoingContext(ctx, md)`
 //@   assert atcall `cc.Invoke(` [backend-call-is-the-proxied-method C10] arg2 == method && same(arg3, args) && pay(arg4) == reply
@@ -1566,21 +1566,21 @@ package larking
 // Header and trailer metadata are copied when the handler sets them (C14: what
 // reaches the client is what was set, not what the handler's map holds later): the
 // stream never keeps the handler's own map.
-//@ func (*streamHTTP).SetHeader serves C14 partial ghost post
+//@ func (*streamHTTP).SetHeader serves C14 partial ghost post nil
 //@   returns (err)
 //@   requires s != nil
 //@   ensures [header-metadata-is-copied-when-it-is-set C14] at every return err == nil && md != nil ==> s.header != md
-//@ func (*streamHTTP).SetTrailer serves C14 partial ghost post
+//@ func (*streamHTTP).SetTrailer serves C14 partial ghost post nil
 //@   requires s != nil
 //@   ensures [trailer-metadata-is-copied-when-it-is-set C14] at every return md != nil ==> s.trailer != md
-//@ func (*streamGRPC).SetHeader serves C14 partial ghost post
+//@ func (*streamGRPC).SetHeader serves C14 partial ghost post nil
 //@   returns (err)
 //@   requires s != nil
 //@   ensures [header-metadata-is-copied-when-it-is-set C14] at every return err == nil && md != nil ==> s.header != md
-//@ func (*streamGRPC).SetTrailer serves C14 partial ghost post
+//@ func (*streamGRPC).SetTrailer serves C14 partial ghost post nil
 //@   requires s != nil
 //@   ensures [trailer-metadata-is-copied-when-it-is-set C14] at every return md != nil ==> s.trailer != md
-//@ func (*streamWS).SetTrailer serves C14 partial ghost post
+//@ func (*streamWS).SetTrailer serves C14 partial ghost post nil
 //@   requires s != nil
 //@   ensures [trailer-metadata-is-copied-when-it-is-set C14] at every return md != nil ==> s.trailer != md
 
@@ -1589,7 +1589,7 @@ package larking
 // context carries the client's cancellation and deadline, C15; its body and headers
 // are the call's, C06) through the framing writer, and the trailer frame is flushed
 // exactly once after the call.
-//@ func (*Mux).serveGRPCWeb serves C06 C15 C05 partial ghost count post
+//@ func (*Mux).serveGRPCWeb serves C06 C15 C05 partial ghost count post nil
 //@   requires m != nil && r != nil
 //@   count served `m.serveGRPC(`
 //@   count flushed `ww.flushWithTrailer(`
@@ -1599,11 +1599,11 @@ package larking
 //@   ensures [the-trailer-frame-is-flushed-once-after-the-call C06 C05] at every return flushed == served
 // The first body byte sends the headers (what was sent as a header is not repeated in
 // the trailer frame); the bytes written are the caller's.
-//@ func (*webWriter).seeHeaders serves C06 C14 trusted partial post
+//@ func (*webWriter).seeHeaders serves C06 C14 trusted partial post nil
 //@   requires w != nil
 //@   modifies F$webWriter.wroteHeader, F$webWriter.seenHeaders, M$
 //@   ensures [the-headers-are-marked-as-sent C06 C14] w.wroteHeader
-//@ func (*webWriter).Write serves C06 C14 partial ghost
+//@ func (*webWriter).Write serves C06 C14 partial ghost pre
 //@   requires w != nil
 //@   assert atcall `w.resp.Write(` [headers-are-fixed-before-the-first-body-byte C06 C14] w.wroteHeader
 //@   assert atcall `w.resp.Write(` [the-callers-bytes-are-written C06] same(arg0, b)
